@@ -20,12 +20,13 @@ the real events, contents and index lookups at every step (F6 included).
 import hashlib
 import json
 import os
+import re
 import time
 
 THEOREMS = ["IstioModel.C16.MonitorTheorems", "IstioModel.C16.RuntimeTheorems", "IstioModel.C16.IndexTheorems",
             "IstioModel.C16.JoinTheorems", "IstioModel.C16.DisciplineTheorems",
             "IstioModel.C16.JoinModelTheorems", "IstioModel.C16.Registration", "IstioModel.C16.GenTie",
-            "IstioModel.C16.IndexGenTheorems", "IstioModel.C16.JoinInflight"]
+            "IstioModel.C16.IndexGenTheorems", "IstioModel.C16.JoinInflight", "IstioModel.C16.JoinStart"]
 GEN = "IstioModel/Generated/C16RegFacts.lean"
 
 F6_FP = "krt:many:key-moves-between-parents:new-parent-first"
@@ -82,11 +83,12 @@ def run_pair(ctx, stream, ops_path, tag, env=None):
     return True, impl, model, ("harness exec rc=%d: %s" % (rc, out[-2000:]) if rc != 0 else "")
 
 
-def branch_counters(ctx, stream, ops_path, trace_path):
+def branch_counters(ctx, stream, ops_path, trace_path, impl_path=None):
     """what the cases met (evidence counters): the shapes the generator chose and the rare branches of krt the
     recorded streams show"""
     ops = ctx.read_lines(ops_path)
     held, seen_held = False, {}
+    started = False
     for l in ops:
         t = l.split()
         if not t:
@@ -101,10 +103,39 @@ def branch_counters(ctx, stream, ops_path, trace_path):
                     ctx.count("shape.fetch_through_multi_key_index")
                 if "single1" in t[4:]:
                     ctx.count("shape.%s" % ("NewManyFromNothing" if tr[:1] == "1" else "NewSingleton"))
+                p = tr.split(":")
+                if len(p) >= 3:
+                    ctx.count("shape.gate.%s" % ("on" if p[1] == "1" else "off"))
+                    fetches = [f for f in p[2].split(";") if f]
+                    ctx.count("shape.fetches.%d" % len(fetches))
+                    for f in fetches:
+                        atoms = f.split("+")
+                        ctx.count("shape.conjuncts.%d" % len(atoms))
+                        for a in atoms:
+                            ctx.count("shape.atom.%s" % a)
+                names = {"sd": "derived_copy", "sj": "join", "s2": "two_collections", "sm": "merge_join", "sn": "nested_merge_join",
+                         "sp": "copy_of_own_primary_diamond", "ss": "own_primary"}
+                mode = [m for m in names if m in t[4:]]
+                ctx.count("shape.fetched_from.%s" % (names[mode[0]] if mode else "static"))
+                if "chain" in t[4:]:
+                    ctx.count("shape.chained_collection")
+            if stream.startswith("join") and len(t) > 3 and t[3].isdigit():
+                ctx.count("shape.%s.joined_collections.%s" % (stream, t[3]))
+            started = False
+        elif t[0] == "start":
+            started = True
+        elif t[0] in ("sub", "psub", "dsub", "xsub", "isub", "m.handler", "jsub") and len(t) >= 2:
+            kind = t[2] if len(t) > 2 else "handler"
+            ctx.count("subscriber.%s.%s.%s" % (t[0], kind, "after_start" if started or stream in ("mem", "inf") else "before_start"))
+        elif t[0] in ("unsub", "punsub", "junsub", "xunsub", "iunsub", "gunsub"):
+            ctx.count("subscriber.unregistered.%s" % t[0])
             for f, name in (("js", "join_over_static_singleton"), ("lr", "mem_store_written_before_run"),
+                            ("fn", "informer_filtered_by_namespace"),
                             ("jd", "join_over_derived"), ("ju", "join_unchecked"), ("f6", "flagged_f6"), ("jr", "flagged_jr")):
                 if f in t[3:]:
                     ctx.count("shape.%s" % name)
+        elif t[0] == "burst":
+            ctx.count("branch.burst_over_1024_batches_for_a_blocked_handler")
         elif t[0] in ("p.reset", "s.reset"):
             keys = [";".join(o.split(";")[:2]) for o in t[1:]]
             if len(set(keys)) < len(keys):
@@ -123,6 +154,11 @@ def branch_counters(ctx, stream, ops_path, trace_path):
                 if t[0] == "p.del":
                     ctx.count("branch.exact.input_vanished_before_its_event_was_processed")
             seen_held[k] = True
+    if impl_path and os.path.exists(impl_path):
+        for l in ctx.read_lines(impl_path):
+            for g in ("undisciplined", "ambiguous", "masked", "not-flagged", "not-started", "no-index"):
+                if l.endswith(" " + g):
+                    ctx.count("guard.%s.%s" % (stream, g))
     if os.path.exists(trace_path):
         for l in ctx.read_lines(trace_path):
             t = l.split()
@@ -131,10 +167,13 @@ def branch_counters(ctx, stream, ops_path, trace_path):
                     kind = e[:2]
                     if kind in ("A~", "U~", "D~"):
                         ctx.count("events.%s" % {"A~": "add", "U~": "update", "D~": "delete"}[kind])
-                    if e.startswith("D~~"):
+                    if e.startswith("D~~") or e.startswith("D~/~"):
                         ctx.count("events.delete_with_zero_valued_old")
+                    if "~?zero-valued-old?~" in e:
+                        ctx.count("events.update_with_zero_valued_old")
                     if e.startswith("X~"):
                         ctx.count("events.malformed_shape")
+                        ctx.count("events.%s.%s" % (stream, e[2:]))
 
 
 def split_cases(ops):
@@ -286,7 +325,7 @@ def classify(op_line, impl_line, model_line):
 
 
 def run_stream(ctx, stream, ncases):
-    st = {"cases": 0, "ops": 0, "agree": True, "known_f6_cases": 0}
+    st = {"cases": 0, "ops": 0, "agree": True, "known_class_cases": 0}
     ctx.streams[stream] = st
     files = []
     cdir = os.path.join(os.path.dirname(ctx.work), "..", "harness", "corpus", ctx.pid)
@@ -315,9 +354,9 @@ def run_stream(ctx, stream, ncases):
         st["cases"] += nc
         st["ops"] += nl
         ctx.account(stream, ops, impl)
-        branch_counters(ctx, stream, ops, impl + ".trace")
+        branch_counters(ctx, stream, ops, impl + ".trace", impl)
         if f6_cases:
-            st["known_f6_cases"] += len(f6_cases)
+            st["known_class_cases"] += len(f6_cases)
             case_lines, bad = f6_cases[0]
             fp, what = known_class(stream)
             ctx.violation(fp, what,
@@ -359,8 +398,8 @@ def run_stream(ctx, stream, ncases):
                 record(ctx, fp, what, rep, True)
     ctx.log("stream %s: %d cases, %d lines, %s%s" % (
         stream, st["cases"], st["ops"], "agree" if st["agree"] else "DIFFER",
-        (" (known class %s reproduced in %d flagged cases)" % (known_class(stream)[0], st["known_f6_cases"]))
-        if st["known_f6_cases"] else ""))
+        (" (known class %s reproduced in %d flagged cases)" % (known_class(stream)[0], st["known_class_cases"]))
+        if st["known_class_cases"] else ""))
 
 
 def run_oracle(ctx, stream):
@@ -426,6 +465,31 @@ def run(ctx):
         "join: a key is changed by one joined collection at a time between quiescent points while subscribers exist; otherwise "
         "the known finding F10 applies (stream joinr, checked apart)",
         "quiescence = all goroutines of the testing/synctest bubble durably blocked (Go runtime semantics)",
+        "joinn: the outer collection of a NestedJoinWithMergeCollection changes at quiescent points only (sync before and after "
+        "every o.add / o.del / o.touch); otherwise the known finding F13 applies (stream joinnr, checked apart)",
+        "krt with a JoinCollection as fetched collection (sj): a fetched key is changed by one of the two joined collections "
+        "between barriers, otherwise the case answers `undisciplined` (F10 inside the fetched join)",
+        "merge joins: the merge function never returns nil for a non-empty input in joinn (nestedjoinmerge dereferences it); in "
+        "joinm it returns nil only when the first value is v3",
+        "misc: while an input discards its result (DiscardResult) its key is compared only when the result it must keep is known "
+        "(discarding began at a quiescent point); otherwise the key is masked",
+        "inf: informer-backed collections deliver the existing objects to every new handler whatever runExistingState says "
+        "(informer.go documents this); the specification's base for such subscribers is empty",
+        "krt.NewStatic singletons are changed and subscribed to sequentially from one goroutine (Set calls the handlers inline; "
+        "its registration is not atomic with Set by design)",
+        "WithObjectAugmentation is exercised with the identity function only",
+        "exact: the queue is held (pause ... resume) only for transformations without key / index atoms (with them krt's reverse "
+        "index recomputes a superset of inputs earlier than the model's full scan: same contents, other event timing)",
+    ]
+    ctx.trusted += [
+        "harness/c16/facts.go (go/ast extractor of the lock facts: registration_under_lock, registration_one_critical_section, "
+        "writers_hold_the_write_lock, registration_snapshot_in_same_span and the *_sites_present theorems rest on its output)",
+        "harness/c16 prog.go outputs() / fetchOpts(): the interpreter of the data-described Transform handed to krt as the "
+        "transformation function (its Lean twin is Spec.lean; the Go oracles use a third, separate evaluator)",
+        "the barrier discipline and masking bookkeeping (disc / touch / retained / blind in the harness, noteSet / touchS / "
+        "stepMisc in the Lean drivers): it decides which lines are compared and which belong to a known class",
+        "testing/synctest entered from a plain binary through testing.Main (Go runtime: durably-blocked detection, fake clock)",
+        "the contention settings of re-runs (GOMAXPROCS, busy goroutines): they only add schedules, never remove a difference",
     ]
     if not ctx.go_build():
         return
@@ -439,7 +503,7 @@ def run(ctx):
     if rc != 0 or not os.path.exists(gen):
         ctx.tie_broken("harness-table:regfacts", "the fact extractor did not produce %s: rc=%s %s" % (GEN, rc, log[-2000:]))
         with open(gen, "w") as f:
-            f.write("namespace IstioModel.Generated.C16\ndef regFacts : List (String × String × String × Bool × Bool × String) := []\n"
+            f.write("namespace IstioModel.Generated.C16\ndef regFacts : List (String × String × String × Bool × Bool × String × Bool) := []\n"
                     "end IstioModel.Generated.C16\n")
     proved = ctx.lean_prove(THEOREMS)
     if not ctx.build_drv():
@@ -477,6 +541,7 @@ def replay(ctx, path):
     with open(p, "w") as f:
         f.write("\n".join(ops) + "\n")
     # (1) the recorded run itself, judged again by the Lean driver (independent of the tree and of the schedule)
+    recorded_rejected = False
     if rep.get("trace") and rep.get("impl_output"):
         tr = os.path.join(ctx.work, "replay.recorded.trace")
         ri = os.path.join(ctx.work, "replay.recorded.impl")
@@ -488,6 +553,7 @@ def replay(ctx, path):
         if rc == 0:
             _, _, kn, real = scan(ctx, p, ri, rm, stream)
             if real:
+                recorded_rejected = True
                 ctx.log("recorded run, judged again by the Lean driver: rejected at op %d '%s' (spec: %s)"
                         % (real[0][1], real[0][0][real[0][1]], real[0][3][:200]))
             else:
@@ -504,8 +570,16 @@ def replay(ctx, path):
     nc, nl, f6_cases, real = scan(ctx, p, impl, model, stream)
     ctx.account(stream, p, impl)
     runs = 1
+    # how often did the recorded case differ when it was found? a rare one needs more runs to be seen again
+    budget = 60 * COPIES
+    m = re.match(r"(\d+) of (\d+)", str(rep.get("reproduced") or ""))
+    if m and int(m.group(2)) > 0:
+        rate = max(int(m.group(1)), 1) / float(int(m.group(2)))
+        budget = int(min(60000, max(budget, 25.0 / rate)))
+    elif obj.get("fingerprint", "").startswith("krt:oracle:"):
+        budget = 200 * COPIES
     if not real and not obj.get("fingerprint", "").startswith("krt:oracle:"):
-        hits, total, first, _ = reproduction(ctx, stream, ops, 60 * COPIES, "replay-stress", stop_at=1)
+        hits, total, first, _ = reproduction(ctx, stream, ops, budget, "replay-stress", stop_at=1)
         runs += total
         if first is not None:
             real = [first]
@@ -525,7 +599,7 @@ def replay(ctx, path):
 
     if obj.get("fingerprint", "").startswith("krt:oracle:") and not real:
         out = os.path.join(ctx.work, "replay.oracle.verdict")
-        for i in range(61):
+        for i in range(1 + budget // COPIES):
             copies = 1 if i == 0 else COPIES
             with open(p, "w") as f:
                 f.write(("\n".join(ops) + "\n") * copies)
@@ -557,6 +631,11 @@ def replay(ctx, path):
                          "implementation": a, "specification": b})
     if not f6_cases and not real:
         ctx.log("replayed case: real krt and specification agree in %d runs under varying contention" % runs)
+        if recorded_rejected:
+            print("REPLAY-INCONCLUSIVE property=%s: the RECORDED run is a violation (the Lean driver rejects its trace again), "
+                  "but %d runs of the case on this tree agree. The case depends on the schedule (recorded: %s). Exit 0 here means "
+                  "'not seen again in %d runs', not 'proved fixed'." % (ctx.pid, runs, rep.get("reproduced") or "rate unknown", runs),
+                  flush=True)
 
 
 MANIFEST = {
@@ -567,15 +646,21 @@ MANIFEST = {
                    "model of krt's manyCollection bookkeeping under every interleaving of source changes and queue processing: at "
                    "quiescence contents = transformation of the current inputs, the stream is well formed for early and late "
                    "subscribers (registration as two steps: needed atomicity proved by a witness; that snapshot and Insert share "
-                   "one critical section of the collection lock is a regenerated source fact), dependency tracking is complete, "
+                   "one critical section of the collection lock is a regenerated source fact, as is the WRITE lock around every Distribute and state write), dependency tracking is complete, "
                    "Index.Lookup is exact for any extractor and any creation time - under the input-level discipline Disciplined "
                    "(disciplined_runOK) and, without it, for KEY-PRESERVING one-to-one collections only (output key = input key: "
                    "state_correct_key_preserving). The statement without the discipline is refuted for one-to-many collections "
                    "(key_move_witness) and for one-to-one collections whose output key is not the input's "
                    "(one_to_one_by_value_witness) = finding F6; moves in which the old parent releases the key first are accepted "
                    "(old_parent_first_accepted). (3) For an executable model of the checked join's event path: correctness with "
-                   "any number of events in flight under the discipline of the join stream, from empty and from populated "
-                   "collections (join_disciplined_correct, join_populated_correct), late registration from processedState, and "
+                   "any number of events in flight under the discipline of the join stream from empty collections "
+                   "(join_disciplined_correct) and, at run level, from populated collections that share NO key "
+                   "(join_populated_correct: jrunOK rejects a shared key at the start). For a join created over collections "
+                   "that already share keys - the usual start - what is proved is: once the initial events are handled, in any "
+                   "order, processedState = the first-collection-wins contents (join_start_processed), and a subscriber that "
+                   "registers at that quiescent point is served a well-formed stream that replays to the contents for every "
+                   "later jrunOK run (join_start_late_subscriber); subscribers that exist while a shared key's initial events "
+                   "are handled are finding F10 (join_overlap_at_start_witness). Late registration from processedState, and "
                    "the witnesses of finding F10. (4) The contents clause is specContents / joinContents / mergeContents ..., "
                    "recomputed in Lean for every observation of List/GetKey/Index.Lookup on real krt collections and evaluated a "
                    "second time in Go (oracles on every stream but the two model streams); both runtime models and the index "
